@@ -537,7 +537,9 @@ class ktensor:
         if permutation is not None and isinstance(
             permutation, (tuple, list, np.ndarray)
         ):
-            if len(permutation) == self.ncomponents:
+            if tuple(sorted(np.asarray(permutation).tolist())) == tuple(
+                range(self.ncomponents)
+            ):
                 self.weights = self.weights[permutation]
                 for i in range(self.ndims):
                     self.factor_matrices[i] = self.factor_matrices[i][:, permutation]
